@@ -7,6 +7,7 @@ CONSTANTS
  ActHosts = {"api", "api2", "other"}
  Fixed = FALSE
  Emit = FALSE
+ Forms = {"abs"}
  CredSources = {"helper", "urluser"}
 SPECIFICATION Spec
 VIEW View
